@@ -20,6 +20,7 @@ pub mod accum;
 pub mod schedule;
 pub mod state;
 pub mod c09;
+pub mod c05;
 
 /// Hook `sched_raw` (C03, C01): drive the real pending queue / reservation code of both
 /// scheduler implementations on raw `(scope_hash, rule_id, compact_rule, Footprint)` keys that
